@@ -32,14 +32,14 @@ type PropsVerdicts struct {
 // ValidateProps evaluates the ExecProps monitor (by TLC) on recorded traces; large batches are split
 // over several TLC processes.
 func ValidateProps(progs []*Program, traces []TraceItem) (*PropsVerdicts, error) {
-	const chunk = 1500
+	const chunk = 400
 	if len(traces) <= chunk {
 		return validatePropsOne(progs, traces)
 	}
 	n := (len(traces) + chunk - 1) / chunk
 	outs := make([]*PropsVerdicts, n)
 	errs := make([]error, n)
-	sem := make(chan struct{}, 8)
+	sem := make(chan struct{}, 12)
 	done := make(chan int, n)
 	for c := 0; c < n; c++ {
 		go func(c int) {
@@ -147,49 +147,81 @@ type ModelVerdict struct {
 	Wall     time.Duration
 	Runs     int
 	Err      error
+	Unchecked int      // traces whose validation was not attempted or did not finish in time
+	Slow      []string // single traces that did not finish in time
 }
 
 var hwRe = regexp.MustCompile(`<<"HW", (\d+)>>`)
 
 // ValidateModel checks that every trace is a behaviour of Exec (trace validation by TLC).
 // cfg is ExecTrace.cfg (pinned behaviour, KF on) or ExecTraceDesign.cfg (KF off).
-func ValidateModel(progs []*Program, traces []TraceItem, cfg string) ModelVerdict {
+// Traces are validated in batches; a batch that does not finish in time is split, and a single trace
+// that does not finish in time is counted as unchecked (never as rejected); nothing is started after
+// the deadline.
+func ValidateModel(progs []*Program, traces []TraceItem, cfg string, deadline time.Time) ModelVerdict {
 	var mv ModelVerdict
-	rest := traces
-	for len(rest) > 0 {
-		data := DataModule(progs, rest)
-		r := tlc.Run(tlc.Opts{SpecDir: SpecDir, Extra: map[string]string{"ExecData.tla": data},
-			Module: "ExecTrace", Config: cfg, Workers: 1, Timeout: 15 * time.Minute, DFS: true})
-		mv.Runs++
-		mv.States += r.Distinct
-		mv.Wall += r.Wall
-		if r.TimedOut {
-			mv.Err = fmt.Errorf("TLC timed out in trace validation")
-			return mv
+	const batch = 100
+	var queue [][]TraceItem
+	for i := 0; i < len(traces); i += batch {
+		hi := i + batch
+		if hi > len(traces) {
+			hi = len(traces)
 		}
-		if r.Violation == "NotAccepted" {
-			mv.Accepted += len(rest)
-			return mv
-		}
-		m := hwRe.FindStringSubmatch(r.Out)
-		if m == nil || !r.OK {
-			tail := r.Out
-			if len(tail) > 3000 {
-				tail = tail[len(tail)-3000:]
+		queue = append(queue, traces[i:hi])
+	}
+	for len(queue) > 0 {
+		rest := queue[0]
+		queue = queue[1:]
+		for len(rest) > 0 {
+			left := time.Until(deadline)
+			if left < 20*time.Second {
+				mv.Unchecked += len(rest)
+				break
 			}
-			mv.Err = fmt.Errorf("trace validation did not complete:\n%s", tail)
-			return mv
+			to := 3 * time.Minute
+			if left < to {
+				to = left
+			}
+			data := DataModule(progs, rest)
+			r := tlc.Run(tlc.Opts{SpecDir: SpecDir, Extra: map[string]string{"ExecData.tla": data},
+				Module: "ExecTrace", Config: cfg, Workers: 1, Timeout: to, DFS: true})
+			mv.Runs++
+			mv.States += r.Distinct
+			mv.Wall += r.Wall
+			if r.TimedOut {
+				if len(rest) == 1 {
+					mv.Unchecked++
+					mv.Slow = append(mv.Slow, rest[0].ID)
+				} else {
+					h := len(rest) / 2
+					queue = append(queue, rest[:h], rest[h:])
+				}
+				break
+			}
+			if r.Violation == "NotAccepted" {
+				mv.Accepted += len(rest)
+				break
+			}
+			m := hwRe.FindStringSubmatch(r.Out)
+			if m == nil || !r.OK {
+				tail := r.Out
+				if len(tail) > 3000 {
+					tail = tail[len(tail)-3000:]
+				}
+				mv.Err = fmt.Errorf("trace validation did not complete:\n%s", tail)
+				return mv
+			}
+			var hw int
+			fmt.Sscanf(m[1], "%d", &hw)
+			k, l := hw/100000, hw%100000
+			if k < 1 || k > len(rest) {
+				mv.Err = fmt.Errorf("bad high-water mark %d", hw)
+				return mv
+			}
+			mv.Accepted += k - 1
+			mv.Rejected = append(mv.Rejected, Nonconf{ID: rest[k-1].ID, Pos: l - 1, Len: len(rest[k-1].Evs)})
+			rest = rest[k:]
 		}
-		var hw int
-		fmt.Sscanf(m[1], "%d", &hw)
-		k, l := hw/100000, hw%100000
-		if k < 1 || k > len(rest) {
-			mv.Err = fmt.Errorf("bad high-water mark %d", hw)
-			return mv
-		}
-		mv.Accepted += k - 1
-		mv.Rejected = append(mv.Rejected, Nonconf{ID: rest[k-1].ID, Pos: l - 1, Len: len(rest[k-1].Evs)})
-		rest = rest[k:]
 	}
 	return mv
 }
